@@ -104,6 +104,13 @@ def _build(src):
             trans.append((rng.choice(Q), "a", rng.choice([eps, eps, "X"]), rng.choice(Q), rng.choice([eps, eps, "X"])))
         F = [order[-1]] if rng.random() < 0.6 else [q for q in Q if rng.random() < 0.3]
         return U.make_pda(Q, "a", "X", sorted(set(trans)), order[0], F, eps)
+    if src["kind"] == "pda_markers":
+        # stack alphabets that contain the markers the constructions want to use themselves: the dummy symbol of
+        # the push/pop form and ALL candidates for the bottom-of-stack marker
+        rng = random.Random(src["seed"])
+        G = rng.choice(["∅", "∅X", "$@#*&!?", "$@#*&!?∅"])
+        P, _ = U.random_pda(rng, rng.randint(1, 3), "a", G, ntrans=rng.randint(1, 5), eps=eps, prefix="s")
+        return P
     if src["kind"] == "pda_apos":
         # state names with an apostrophe: pda_to_cfg calls its variables p'q, so (x', y) and (x, 'y) look alike;
         # pushes leave x / x', pops enter y / 'y
